@@ -469,9 +469,10 @@ func runCasePre(v viewKind, op treefs.Op, sub string, prelude string) *verdict {
 			}
 			return strings.Join(parts, "\n--\n")
 		}
+		preWritten := false
 		switch prelude {
 		case "write":
-			fsx.Exec(view, treefs.Op{Kind: "WriteFile", P: "pre.txt", Data: "in-pre"})
+			preWritten = fsx.Exec(view, treefs.Op{Kind: "WriteFile", P: "pre.txt", Data: "in-pre"}).Err == ""
 		case "list":
 			fsx.Exec(view, treefs.Op{Kind: "ReadDir", P: "."})
 			fsx.Exec(view, treefs.Op{Kind: "IsDir", P: "n"})
@@ -573,11 +574,14 @@ func runCasePre(v viewKind, op treefs.Op, sub string, prelude string) *verdict {
 		// data / listing / stat leaks
 		if r.Err == "" {
 			inRoot := root
-			if sub != "" {
-				return // content oracle only for direct views (the derived view's root is unknown if it was clamped)
+			if sub != "" && op.Kind != "ReadFile" && op.Kind != "Reader" && op.Kind != "ReadDir" {
+				// existence / stat oracles only for direct views (the derived view's root is unknown if it was
+				// clamped); wherever it is, it lies inside the parent view's root: what a derived view returns
+				// or lists is still content / a listing from inside that root
+				return
 			}
 			model := insideModel(inRoot)
-			if prelude == "write" {
+			if prelude == "write" && preWritten { // (a read-only view refuses the prelude's write)
 				if ep := treefs.Apply(model, treefs.Op{Kind: "WriteFile", P: "pre.txt", Data: "in-pre"}); ep.After != nil {
 					model = ep.After
 				}
@@ -731,7 +735,8 @@ func run(c *fw.Ctx) {
 				cases = append(cases, cs{op, ""})
 			}
 			// the Filespace method itself with the path as argument, followed by a write and a read
-			cases = append(cases, cs{treefs.Op{Kind: "WriteFile", P: "evil", Data: "EVIL-sub"}, p}, cs{treefs.Op{Kind: "ReadDir", P: "."}, p}, cs{treefs.Op{Kind: "RemoveAll", P: "n"}, p})
+			cases = append(cases, cs{treefs.Op{Kind: "WriteFile", P: "evil", Data: "EVIL-sub"}, p}, cs{treefs.Op{Kind: "ReadDir", P: "."}, p}, cs{treefs.Op{Kind: "RemoveAll", P: "n"}, p},
+				cs{treefs.Op{Kind: "ReadFile", P: "n"}, p}, cs{treefs.Op{Kind: "ReadFile", P: "x"}, p}, cs{treefs.Op{Kind: "Reader", P: "o.txt", Buf: 64}, p})
 			preludes := []string{"", "outside-sweep", "copies-out"}
 			if esc := pathClass(p); esc != "stays-inside" {
 				preludes = []string{"", "outside-sweep", "copies-out", "write", "list", "mkdir-remove"}
@@ -815,7 +820,7 @@ func replay(w json.RawMessage) (*fw.Violation, error) {
 
 func init() {
 	fw.Register(&fw.Check{ID: "C03", Level: "exploration",
-		Rule: "all path strings of <=3 (quick) / <=4 (thorough) segments over {n, '.', '..', ''} with and without leading '/' (climbing paths also with backslash as separator, all and first only), x all 16 operations (both arguments of the copy operations, and the path used as Filespace() argument followed by write/list/remove) x 24 view kinds (memory, disk, encrypted incl. stores written through the encryption, read-only, sub-path, cache-backed; depth 1 and 2), each on a fresh store with canaries outside the view root, every case additionally after an 'outside sweep' and (writes, copies) after the parent has copied files and the view directory out of the view, (all read-type operations on every store node through the object the view was derived from and through a sibling view), climbing paths additionally after a harmless prelude (write / list / mkdir+remove) through the same view object; plus sibling views: parent views at depth 0..7 (thorough 12; step by step and with one joined path) x 5 view implementations, two children and a grandchild obtained from one parent object in 3 orders x 5 operations; distinct = (view, op, path) cases, non-trivial = all (every case touches a populated store)",
+		Rule: "all path strings of <=3 (quick) / <=4 (thorough) segments over {n, '.', '..', ''} with and without leading '/' (climbing paths also with backslash as separator, all and first only), x all 16 operations (both arguments of the copy operations, and the path used as Filespace() argument followed by write/list/remove/read: what a derived view returns or lists is content from inside the parent view's root) x 24 view kinds (memory, disk, encrypted incl. stores written through the encryption, read-only, sub-path, cache-backed; depth 1 and 2), each on a fresh store with canaries outside the view root, every case additionally after an 'outside sweep' and (writes, copies) after the parent has copied files and the view directory out of the view, (all read-type operations on every store node through the object the view was derived from and through a sibling view), climbing paths additionally after a harmless prelude (write / list / mkdir+remove) through the same view object; plus sibling views: parent views at depth 0..7 (thorough 12; step by step and with one joined path) x 5 view implementations, two children and a grandchild obtained from one parent object in 3 orders x 5 operations; distinct = (view, op, path) cases, non-trivial = all (every case touches a populated store)",
 		Run:  run, Replay: replay,
 		Assumptions: []string{"segment bound as stated; the 'randomly beyond the bound' part of the quantifier is not claimed", "one store shape; the view root itself counts as inside", "a result is a leak when it returns content/listing/stat of a node outside the root (canary contents and names are unique)"}})
 }
